@@ -1084,5 +1084,36 @@ func runC03(env *vk.Env) {
 		}
 	}
 	nbtJudge(env, tr, "B declared lengths around fixed-size Go array destinations")
+	// huge declared lengths (2^24 .. 2^31-1) where the decoder does not allocate by the declared length: skipped
+	// fields, RawMessage capture, RawMessage.String, StringifiedMessage. 32-bit size arithmetic overflows only here.
+	tr = &vk.Trace{}
+	hugeLens := [][]byte{{0x7f, 0xff, 0xff, 0xff}, {0x40, 0, 0, 0}, {0x40, 0, 0, 1}, {0x20, 0, 0, 0}, {0x10, 0, 0, 0}, {0x10, 0, 0, 1}, {0x08, 0, 0, 0}, {0x01, 0, 0, 0}, {0x3f, 0xff, 0xff, 0xff}}
+	for i := 0; i < env.Pick(60, 600); i++ {
+		tree := randTree(rng, 1+rng.Intn(3), 10)
+		// make sure arrays and lists are present
+		tree.Ent = append(tree.Ent, nbtEntry{K: ints([]byte("zi")), N: &nbtNode{T: 11, Wds: [][]int{{0, 0, 0, 1}, {0, 0, 0, 2}}}},
+			nbtEntry{K: ints([]byte("zl")), N: &nbtNode{T: 12, Wds: [][]int{{0, 0, 0, 0, 0, 0, 0, 1}}}},
+			nbtEntry{K: ints([]byte("zb")), N: &nbtNode{T: 7, Pat: []int{1, 2, 3}}},
+			nbtEntry{K: ints([]byte("zz")), N: &nbtNode{T: 9, Et: 3, Lst: []*nbtNode{{T: 3, Pat: []int{0, 0, 0, 5}}}}})
+		fmtName := []string{"file", "network"}[rng.Intn(2)]
+		off := &nbtOffsets{}
+		curOffsets = off
+		doc := nbtDocBytes(fmtName, []byte("r"), tree)
+		curOffsets = nil
+		for _, o := range off.Len32 {
+			in := append([]byte{}, doc...)
+			copy(in[o:], hugeLens[rng.Intn(len(hugeLens))])
+			if rng.Intn(2) == 0 { // sometimes cut right behind the length or behind one element
+				cut := o + 4 + []int{0, 4, 8}[rng.Intn(3)]
+				if cut < len(in) {
+					in = in[:cut]
+				}
+			}
+			tg := []string{"skip", "raw", "rawstring", "snbt"}[rng.Intn(4)]
+			tr.Add(c03Event(nbtDecode(fmtName, in, tg, "length32-huge")))
+		}
+		env.Distinct("hostile/length32-huge")
+	}
+	nbtJudge(env, tr, "B huge declared lengths on non-allocating entry points")
 	env.Sample(map[string]any{"targets": nbtTargets})
 }
